@@ -57,6 +57,24 @@ class FuncRef:
         return hash(self.qual)
 
 
+class ImplicitCls:
+    """the class object that Python passes implicitly to a @classmethod (the call site does not write it)"""
+
+    def __init__(self, pycls):
+        self.pycls = pycls
+
+    def __repr__(self):
+        return f"<implicit cls {getattr(self.pycls, '__qualname__', self.pycls)}>"
+
+
+class SuperProxy:
+    """value of `super()` inside a method of a repo class: (receiver, class whose MRO successors are searched)"""
+
+    def __init__(self, recv, after):
+        self.recv = recv
+        self.after = after
+
+
 class ExcVal:
     def __init__(self, name, args=()):
         self.name = name
@@ -71,6 +89,8 @@ class Executor(ExprMixin, StmtMixin, LoopMixin):
         self.pending: list | None = None
         self.try_stack: list = []
         self.qstack: list = []
+        self.qnames: list = []  # names bound by the enclosing quantifiers / comprehensions (for old())
+        self.entry_state = None
         self.spec_mode = False
         self.old_state: State | None = None
         self.result: Val | None = None
@@ -142,21 +162,45 @@ class Executor(ExprMixin, StmtMixin, LoopMixin):
             raise ContractMisfit(f"class {t.cls} is not declared")
         return cs
 
-    def find_method(self, cs, name):
-        if name in cs.methods:
-            return cs.methods[name]
-        if cs.repo:
-            mod, qn = cs.repo.split(":")
-            pycls = getattr(importlib.import_module(mod), qn)
-            for k in pycls.__mro__:
+    def real_class(self, cs):
+        """the real python class behind a `repo=` class (None otherwise)"""
+        if not cs.repo:
+            return None
+        mod, qn = cs.repo.split(":")
+        o = importlib.import_module(mod)
+        for part in qn.split("."):
+            o = getattr(o, part)
+        return o
+
+    def find_method(self, cs, name, after=None):
+        return self.find_method_ex(cs, name, after)[0]
+
+    def find_method_ex(self, cs, name, after=None):
+        """-> (model callable | contract key | None, kind) with kind in instance / static / class.
+        `after`: resolve like super(after, self): only classes that FOLLOW `after` in the MRO of the real class."""
+        if after is None and name in cs.methods:
+            return cs.methods[name], "model"
+        pycls = self.real_class(cs)
+        if pycls is not None:
+            mro = list(pycls.__mro__)
+            if after is not None:
+                if after not in mro:
+                    raise Unsupported(f"super(): {after.__qualname__} is not a base of {pycls.__qualname__} (the class of the receiver {cs.name})")
+                mro = mro[mro.index(after) + 1:]
+            for k in mro:
                 if name in k.__dict__:
+                    raw = k.__dict__[name]
+                    kind = "static" if isinstance(raw, staticmethod) else "class" if isinstance(raw, classmethod) else "instance"
+                    if after is not None and f"{k.__qualname__}.{name}" in cs.methods:
+                        return cs.methods[f"{k.__qualname__}.{name}"], "model"
                     key = f"{k.__module__}:{k.__qualname__}.{name}"
                     # a contract variant bound to this receiver class wins
                     for kk in (f"{key}#{cs.name}", key):
+                        kk = self.c.calls.get(kk, kk) if self.c else kk
                         if kk in api.CONTRACTS:
-                            return kk
-                    return None
-        return None
+                            return kk, kind
+                    return None, kind
+        return None, None
 
     # ---- heap -------------------------------------------------------------------------------
     def field_array(self, st, cls, name, t=None, create=False):
@@ -269,6 +313,8 @@ class Executor(ExprMixin, StmtMixin, LoopMixin):
             if not hasattr(o, name):
                 raise Unsupported(f"{o!r} has no attribute {name}", node)
             return self.wrap_py(getattr(o, name), name)
+        if isinstance(o, SuperProxy):
+            return Val.obj(BoundMethod(o.recv, name, after=o.after))
         if isinstance(o, ExcVal):
             raise Unsupported("attribute of exception value", node)
         raise Unsupported(f"attribute {name} of python object {o!r}", node)
@@ -284,6 +330,12 @@ class Executor(ExprMixin, StmtMixin, LoopMixin):
         if isinstance(fnode, ast.Name) and fnode.id in ("all", "any") and len(node.args) == 1 and isinstance(node.args[0], ast.GeneratorExp) and fnode.id not in st.env:
             return self.quantified(fnode.id, node.args[0], st)
         if isinstance(fnode, ast.Name) and fnode.id == "old" and self.spec_mode:
+            if self.old_state is None and getattr(self, "entry_state", None) is not None:
+                # loop invariants / hints: old(e) is e in the state at function entry
+                o = self.entry_state.copy()
+                o.pc = st.pc
+                self.bind_quantified(o, st)
+                return self.eval(node.args[0], o)
             if self.old_state is None:
                 raise ContractMisfit("old() outside a postcondition")
             save = self.old_state
@@ -291,6 +343,7 @@ class Executor(ExprMixin, StmtMixin, LoopMixin):
             try:
                 o = save.copy()
                 o.pc = st.pc
+                self.bind_quantified(o, st)
                 return self.eval(node.args[0], o)
             finally:
                 self.old_state = save
@@ -355,6 +408,14 @@ class Executor(ExprMixin, StmtMixin, LoopMixin):
                 kwargs[k.arg] = self.eval(k.value, st)
         return self.apply(fv, args, kwargs, st, node)
 
+    def bind_quantified(self, o, st):
+        """old(e) under quantifiers: the variables bound by the enclosing all()/any()/comprehensions keep their
+        (current) values inside e; everything else is read in the old state."""
+        for names in getattr(self, "qnames", ()):
+            for n in names:
+                if n in st.env:
+                    o.env[n] = st.env[n]
+
     def is_logger(self, n):
         if isinstance(n, ast.Name) and n.id in LOGGER_NAMES:
             return True
@@ -371,7 +432,7 @@ class Executor(ExprMixin, StmtMixin, LoopMixin):
         if isinstance(f, api.SpecFn):
             return self.apply_spec(f, args, st, node)
         if isinstance(f, BoundMethod):
-            return self.call_method(f.recv, f.name, args, kwargs, st, node)
+            return self.call_method(f.recv, f.name, args, kwargs, st, node, after=f.after)
         if isinstance(f, FuncRef):
             q = f.qual
             # 1. a contract on a repo function
@@ -379,7 +440,12 @@ class Executor(ExprMixin, StmtMixin, LoopMixin):
                 key = f"{getattr(f.obj, '__module__', '?')}:{getattr(f.obj, '__qualname__', '?')}"
                 key = self.c.calls.get(key, key)
                 if key in api.CONTRACTS:
+                    if inspect.ismethod(f.obj) and inspect.isclass(f.obj.__self__):
+                        # a classmethod reached through the class (`Cls.load(font)`): Python passes the class itself
+                        return self.call_contract(api.CONTRACTS[key], [Val.obj(ImplicitCls(f.obj.__self__))] + list(args), kwargs, st, node, implicit=1)
                     return self.call_contract(api.CONTRACTS[key], args, kwargs, st, node)
+            if q == "builtins.super" and not args and not kwargs and q not in self.c.models:
+                return self.make_super(st, node)
             # 2. a trusted model (libraries, builtins); contract-local models take precedence
             if q in self.c.models:
                 self.assumptions_used.add(f"{q} (model local to {self.c.key})")
@@ -405,6 +471,26 @@ class Executor(ExprMixin, StmtMixin, LoopMixin):
                 return self.call_method(fv, "__call__", args, kwargs, st, node)
         raise Unsupported(f"call of {fv}", node)
 
+    def make_super(self, st, node):
+        """`super()` in a method of a repo class: the receiver + the class that defines the running method."""
+        if self.src is None or self.c is None or ":" not in self.c.target:
+            raise Unsupported("super() outside a method under contract", node)
+        mod, qual = self.c.target.split("#")[0].split(":")
+        parts = qual.split(".")
+        if len(parts) < 2:
+            raise Unsupported("super() outside a method", node)
+        k = importlib.import_module(mod)
+        for p_ in parts[:-1]:
+            k = getattr(k, p_, None)
+        if not inspect.isclass(k):
+            raise Unsupported("super(): defining class not found", node)
+        a = self.src.fdef.args
+        first = (a.posonlyargs + a.args)
+        recv = st.env.get(first[0].arg) if first else None
+        if recv is None or recv.is_py or not isinstance(recv.ty, T.Ref):
+            raise Unsupported("super(): the receiver is not an object reference", node)
+        return Val.obj(SuperProxy(recv, k))
+
     def construct(self, cs, args, kwargs, st, node):
         init = self.find_method(cs, "__init__")
         obj = self.new_object(st, cs.name)
@@ -418,20 +504,24 @@ class Executor(ExprMixin, StmtMixin, LoopMixin):
             self.call_contract(api.CONTRACTS[init], [obj] + args, kwargs, st, node)
         return obj
 
-    def call_method(self, recv: Val, name, args, kwargs, st, node):
+    def call_method(self, recv: Val, name, args, kwargs, st, node, after=None):
         from . import models
 
         recv = self.deopt(recv, st, node)
 
         if isinstance(recv.ty, T.Ref):
             cs = self.class_of(recv.ty)
-            m = self.find_method(cs, name)
+            m, kind = self.find_method_ex(cs, name, after)
             if m is None:
-                raise Unsupported(f"method {cs.name}.{name} has no contract or model", node)
+                raise Unsupported(f"method {cs.name}.{name} has no contract or model" + (" (super)" if after else ""), node)
             if callable(m):
                 self.assumptions_used.add(f"{cs.name}.{name}")
                 return m(self, st, recv, args, kwargs, node)
-            return self.call_contract(api.CONTRACTS[m], [recv] + args, kwargs, st, node)
+            if kind == "static":  # self.m(...) / cls.m(...) on a @staticmethod: no receiver is passed
+                return self.call_contract(api.CONTRACTS[m], list(args), kwargs, st, node, implicit=0)
+            if kind == "class":  # @classmethod: the class of the receiver is passed
+                return self.call_contract(api.CONTRACTS[m], [Val.obj(ImplicitCls(self.real_class(cs)))] + args, kwargs, st, node, implicit=1)
+            return self.call_contract(api.CONTRACTS[m], [recv] + args, kwargs, st, node, implicit=1)
         return models.value_method(self, st, recv, name, args, kwargs, node)
 
     def bind_args(self, fdef, args, kwargs, node, skip_self=False):
@@ -522,7 +612,9 @@ class Executor(ExprMixin, StmtMixin, LoopMixin):
         return Val(sf.ret, self.spec_decl(sf)(*zs))
 
     # ---- calls through contracts -------------------------------------------------------------------------
-    def call_contract(self, cc: api.FnContract, args, kwargs, st, node):
+    def call_contract(self, cc: api.FnContract, args, kwargs, st, node, implicit=0):
+        """`implicit`: number of leading arguments that Python supplies itself (self / cls): they have no
+        counterpart in `node.args` (matters for writing modified container arguments back)."""
         src = load_function(cc.target)
         bound, missing = self.bind_args(src.fdef, args, kwargs, node)
         callee = Executor(cc, src)
@@ -536,8 +628,9 @@ class Executor(ExprMixin, StmtMixin, LoopMixin):
             if n not in bound:
                 raise ContractMisfit(f"{cc.key}: parameter {n} not in signature")
             if isinstance(t, api.Const):
-                e = ops.equal(bound[n], Val.const(t.value))
-                self.oblige(st, e, "pre@callsite", f"{cc.key.split(':')[-1]}.{n}@L{getattr(node, 'lineno', 0)}", node)
+                if not (bound[n].is_py and isinstance(bound[n].py, ImplicitCls)):
+                    e = ops.equal(bound[n], Val.const(t.value))
+                    self.oblige(st, e, "pre@callsite", f"{cc.key.split(':')[-1]}.{n}@L{getattr(node, 'lineno', 0)}", node)
                 bound[n] = Val.const(t.value)
             else:
                 if not isinstance(t, T.Opt):
@@ -596,13 +689,15 @@ class Executor(ExprMixin, StmtMixin, LoopMixin):
         # write back container parameters that were modified (value semantics)
         for m in cc.modifies:
             if "." not in m:
-                self.writeback_arg(m, post.env[m], src, args, kwargs, node, st)
+                self.writeback_arg(m, post.env[m], src, args, kwargs, node, st, implicit)
         self.assumptions_used |= {"contract:" + cc.key}
         return res
 
-    def writeback_arg(self, pname, newval, src, args, kwargs, node, st):
-        names = [x.arg for x in src.fdef.args.posonlyargs + src.fdef.args.args]
+    def writeback_arg(self, pname, newval, src, args, kwargs, node, st, implicit=0):
+        names = [x.arg for x in src.fdef.args.posonlyargs + src.fdef.args.args][implicit:]
         argnode = None
+        if any(isinstance(a, ast.Starred) for a in node.args):
+            raise Unsupported("callee modifies a container argument of a call with *args", node)
         if pname in names and names.index(pname) < len(node.args):
             argnode = node.args[names.index(pname)]
         else:
